@@ -44,6 +44,17 @@ pub const SEEDS: &[Seed] = &[
         )],
     },
     Seed {
+        // crate settings are inputs of the database too: edition (visibility enforcement, prelude, glob
+        // imports), the crate's cfg set and the experimental features are edited like file contents
+        name: "crate-settings-edits",
+        nflags: 7,
+        files: &[
+            ("@settings", "edition=⟦3:0¦3⟧ feature_x=⟦4:0¦1⟧ experimental=⟦5:0¦1⟧ edition_plus=⟦6:0¦1⟧"),
+            ("lib.cairo", "⟦0:¦// top\n⟧mod m;\n#[cfg(feature: 'x')]\nfn pick() -> u8 {\n    1\n}\n#[cfg(not(feature: 'x'))]\nfn pick() -> u8 {\n    2\n}\nfn f(a: u8) -> u8 {\n    m::hidden(a) + pick() + ⟦1:1¦2⟧\n}\n⟦2:¦use m::*;\nfn g(a: u8) -> u8 {\n    vis(a)\n}\n⟧fn d() -> Felt252Dict<u8> {\n    Default::default()\n}\n"),
+            ("m.cairo", "fn hidden(a: u8) -> u8 {\n    a\n}\npub fn vis(a: u8) -> u8 {\n    a / 2\n}\n"),
+        ],
+    },
+    Seed {
         name: "two-file-module-tree",
         nflags: 9,
         files: &[
@@ -106,9 +117,28 @@ pub fn render(template: &str, flags: u32) -> String {
 }
 
 fn apply_content(db: &mut RootDatabase, seed: &Seed, flags: u32) -> cairo_lang_filesystem::ids::CrateInput {
+    // the pseudo file `@settings` renders to `key=value` words that become the crate's settings
+    let settings = seed.files.iter().find(|(p, _)| *p == "@settings").map(|(_, tpl)| {
+        use cairo_lang_filesystem::cfg::{Cfg as CfgItem, CfgSet};
+        use cairo_lang_filesystem::db::{CrateSettings, Edition, ExperimentalFeaturesConfig};
+        let text = render(tpl, flags);
+        let get = |k: &str| text.split_whitespace().find_map(|w| w.strip_prefix(&format!("{k}="))).and_then(|v| v.parse::<usize>().ok()).unwrap_or(0);
+        let mut st = CrateSettings::default();
+        st.edition = [Edition::V2023_01, Edition::V2023_10, Edition::V2023_11, Edition::V2024_07, Edition::V2025_12][(get("edition") + get("edition_plus")).min(4)];
+        if get("feature_x") == 1 {
+            st.cfg_set = Some(CfgSet::from_iter([CfgItem::kv("feature", "x")]));
+        }
+        if get("experimental") == 1 {
+            st.experimental_features = ExperimentalFeaturesConfig { negative_impls: true, associated_item_constraints: true, coupons: true, user_defined_inline_macros: true, repr_ptrs: true };
+        }
+        st
+    });
     let mut ci = None;
     for (path, tpl) in seed.files {
-        ci = Some(set_file(db, "p", path, Some(&render(tpl, flags))));
+        if *path == "@settings" {
+            continue;
+        }
+        ci = Some(crate::hist::set_file_settings(db, "p", path, Some(&render(tpl, flags)), settings.clone()));
     }
     ci.unwrap()
 }
@@ -159,7 +189,7 @@ fn explore(db: &mut RootDatabase, seed: &Seed, nflags: usize, flags: u32, depth:
 fn run_all(ctx: &mut Ctx) {
     let tier = ctx.tier;
     let depth = tier.pick(2, 3);
-    let nseeds = tier.pick(3, SEEDS.len());
+    let nseeds = tier.pick(4, SEEDS.len());
     let queries: &[bool] = &[true, false];
     for seed in SEEDS.iter().take(nseeds) {
         // start states: the initial content and every single-flag content
@@ -264,7 +294,7 @@ fn run_all(ctx: &mut Ctx) {
 pub static C13: CheckDef = CheckDef {
     id: "C13",
     level: "model_checking",
-    rule: "Model: project content = render(seed, flags), flags in {0,1}^m (m = 8..10 per seed): comment at top / between items / inside a body, extra let, extra const item / const statement, identifier renamed at the definition only or consistently (also across files), literal changed, type changed, closing brace deleted, unterminated item inserted, item deleted / replaced / duplicated impl, pure REORDERINGS (struct members, enum variants, trait and impl items, match arms, parameters, whole functions swapped in place), derive list changed, second module file edited, value out of range. An edit flips one flag; a step is (edit, query) with query in {diagnostics+Sierra, none}. Seeds: plain functions; struct+trait+generics; derive/plugin-generated code; a two-file module tree; consts and const statements; closures + loops + matches with an enum variant added consistently; a three-file tree with inline modules, re-exports, cross-file consts / traits / impls and renames (quick: first 3). Enumerated: EVERY step sequence of length <= 2 (thorough: <= 3) from the initial content and from each of the m single-flag contents, by depth-first search where every node is a fork()ed copy-on-write image of the real RootDatabase (override_file_content! applied to the live database). Oracle: at every queried node, hash(diagnostics text with line:col) and hash(Sierra text) of the incremental database equal those of the same content compiled in a fork of a pristine image that never saw another version of the project (memoised per content); that shortcut is itself bound to a brand-new RootDatabase on every start content. states = distinct contents reached, transitions = steps executed, traces_validated_against_impl = queried nodes compared (every transition is executed on the implementation; there is no separate model to drift).",
+    rule: "Model: project content = render(seed, flags), flags in {0,1}^m (m = 8..10 per seed): comment at top / between items / inside a body, extra let, extra const item / const statement, identifier renamed at the definition only or consistently (also across files), literal changed, type changed, closing brace deleted, unterminated item inserted, item deleted / replaced / duplicated impl, pure REORDERINGS (struct members, enum variants, trait and impl items, match arms, parameters, whole functions swapped in place), derive list changed, second module file edited, value out of range. An edit flips one flag; a step is (edit, query) with query in {diagnostics+Sierra, none}. Seeds: plain functions; struct+trait+generics; derive/plugin-generated code; a two-file module tree; consts and const statements; closures + loops + matches with an enum variant added consistently; a three-file tree with inline modules, re-exports, cross-file consts / traits / impls and renames; a seed whose edits change the CRATE SETTINGS - edition 2023_01 / 2023_10 / 2024_07 / 2025_12 (visibility enforcement, prelude contents, glob imports), a `feature` in the crate's cfg set selecting between two `#[cfg]` definitions, experimental features - next to content edits (quick: first 4). Enumerated: EVERY step sequence of length <= 2 (thorough: <= 3) from the initial content and from each of the m single-flag contents, by depth-first search where every node is a fork()ed copy-on-write image of the real RootDatabase (override_file_content! applied to the live database). Oracle: at every queried node, hash(diagnostics text with line:col) and hash(Sierra text) of the incremental database equal those of the same content compiled in a fork of a pristine image that never saw another version of the project (memoised per content); that shortcut is itself bound to a brand-new RootDatabase on every start content. states = distinct contents reached, transitions = steps executed, traces_validated_against_impl = queried nodes compared (every transition is executed on the implementation; there is no separate model to drift).",
     assumptions: &["fork() copy-on-write semantics; single-threaded workers (no rayon pool exists at fork time)", "the reference for a content is a database that compiled only an unrelated warm-up crate; equality with a brand-new database is checked on the start contents"],
     run: run_all,
     stack_mb: 32,
